@@ -588,6 +588,15 @@ func (sr *scenRun) app(r *rand.Rand) *rtcp.ApplicationDefined {
 	for i := r.Intn(3); i > 0; i-- {
 		data = binary.BigEndian.AppendUint32(data, r.Uint32())
 	}
+	if n := sr.appCtr.Load(); n%8 == 5 {
+		// every eighth packet sits at the size limit: a plain RTCP size of 1444..1472 in steps of
+		// four around "maximum packet size minus the SRTCP overhead"; the writer either refuses it
+		// or every reader gets it intact
+		want := 1444 + 4*int((n/8)%8) - 12
+		for len(data) < want {
+			data = binary.BigEndian.AppendUint32(data, r.Uint32())
+		}
+	}
 	sr.appMu.Lock()
 	sr.appSent[id] = data
 	sr.appMu.Unlock()
